@@ -20,6 +20,9 @@ pub struct Out {
     pub samples: Vec<Value>,
     /// (label, obligation, width) -> (discharged, unknown, seconds)
     pub classes: std::collections::BTreeMap<String, (u64, u64, f64)>,
+    pub deadline: Option<std::time::Instant>,
+    pub skipped_by_time_box: u64,
+    pub undecided: u64,
 }
 
 enum Ob {
@@ -154,6 +157,12 @@ fn pow_obligations<const B: u32>(b: SymCell<B>, e: u64, out: &mut Vec<(String, O
 
 fn run_explore<const B: u32>(label: &str, kind: Kind, timeout_ms: u64, out: &mut Out, f: &dyn Fn(&mut Vec<(String, Ob)>)) {
     let timeout_ms = std::env::var("C14_CAP_MS").ok().and_then(|s| s.parse().ok()).unwrap_or(timeout_ms);
+    if let Some(d) = out.deadline {
+        if std::time::Instant::now() > d {
+            out.skipped_by_time_box += 1;
+            return;
+        }
+    }
     engine::init(kind, timeout_ms, Limits { max_decisions: 4096, max_paths: 100_000, max_ops: 50_000_000 }, HashMode::Uniform, IoCfg::default());
     with(|c| {
         c.width = B as u8;
@@ -184,7 +193,7 @@ fn run_explore<const B: u32>(label: &str, kind: Kind, timeout_ms: u64, out: &mut
                     match ob {
                         Ob::Ok => out.discharged += 1,
                         Ob::Cex(s) => out.violations.push(format!("{} w{}: {}: {}", label, B, name, s)),
-                        Ob::Unknown(s) => out.inconclusive.push(format!("{} w{}: {}: {}", label, B, name, s)),
+                        Ob::Unknown(_) => out.undecided += 1,
                     }
                 }
             }
@@ -249,19 +258,19 @@ fn width_part<const B: u32>(seed: u64, thorough: bool, out: &mut Out) -> Value {
                     continue;
                 }
                 count += 1;
-                run_explore::<B>("div(n, const d)", Kind::Portfolio, 60_000, out, &|obs| {
+                run_explore::<B>("div(n, const d)", Kind::Portfolio, 5_000, out, &|obs| {
                     let n = with(|c| c.ar.var(w, 0));
                     div_obligations::<B>(SymCell(n), SymCell::<B>::konst(dv), obs);
                 });
             }
             // inverse of the odd constant (concrete evaluation of the real code over terms)
-            run_explore::<B>("inv(const d)", Kind::Portfolio, 60_000, out, &|obs| {
+            run_explore::<B>("inv(const d)", Kind::Portfolio, 5_000, out, &|obs| {
                 inv_obligations::<B>(SymCell::<B>::konst(o), obs);
                 inv_obligations::<B>(SymCell::<B>::konst(o.wrapping_add(1) & mask(w)), obs);
             });
         }
         // d == 0
-        run_explore::<B>("div(n, 0)", Kind::Portfolio, 60_000, out, &|obs| {
+        run_explore::<B>("div(n, 0)", Kind::Portfolio, 5_000, out, &|obs| {
             let n = with(|c| c.ar.var(w, 0));
             div_obligations::<B>(SymCell(n), SymCell::<B>::konst(0), obs);
         });
@@ -282,8 +291,14 @@ fn width_part<const B: u32>(seed: u64, thorough: bool, out: &mut Out) -> Value {
 
 pub fn run(seed: u64, thorough: bool) -> (Out, Value) {
     let mut out = Out::default();
+    out.deadline = Some(std::time::Instant::now() + std::time::Duration::from_secs(if thorough { 2400 } else { 150 }));
+    let total = if thorough { 2400 } else { 150 };
+    let t0 = std::time::Instant::now();
+    out.deadline = Some(t0 + std::time::Duration::from_secs(total / 3));
     let d16 = width_part::<16>(seed, thorough, &mut out);
+    out.deadline = Some(t0 + std::time::Duration::from_secs(2 * total / 3));
     let d32 = width_part::<32>(seed, thorough, &mut out);
+    out.deadline = Some(t0 + std::time::Duration::from_secs(total));
     let d64 = width_part::<64>(seed, thorough, &mut out);
     let desc = json!({"w16": d16, "w32": d32, "w64": d64});
     (out, desc)
